@@ -107,13 +107,19 @@ void harness(void) {
     int badres = res < 0 || res > 15;
     __CPROVER_assume(badflags || badres);
     LatLng v[3] = {{0.1, 0.1}, {0.2, 0.1}, {0.1, 0.2}};
-    GeoPolygon poly = {.geoloop = {.numVerts = 3, .verts = v}, .numHoles = 0, .holes = 0};
+    // the outer loop has 0-3 vertices: the fill rejects bad arguments for the empty polygon too. The size function is only
+    // held to this for >= 1 vertex: on the unchanged tree it answers 0 / E_SUCCESS for a 0-vertex polygon before it looks at
+    // res and flags (DESIGN 9.8, recorded as an observation)
+    int nv = in_n = vp_int("in_n");
+    __CPROVER_assume(nv >= 0 && nv <= 3);
+    GeoPolygon poly = {.geoloop = {.numVerts = nv, .verts = v}, .numHoles = 0, .holes = 0};
     H3Index out[2] = {UINT64_C(0x5a5a5a5a5a5a5a5a), UINT64_C(0x5a5a5a5a5a5a5a5a)};
     int64_t sz = -7;
     H3Error e1 = H3_EXPORT(polygonToCellsExperimental)(&poly, res, flags, 2, out);
-    H3Error e2 = H3_EXPORT(maxPolygonToCellsSizeExperimental)(&poly, res, flags, &sz);
-    if (badres) { __CPROVER_assert(e1 == E_RES_DOMAIN && e2 == E_RES_DOMAIN, "resolution outside 0-15 -> E_RES_DOMAIN"); }
-    else { VP_WITNESS("bad flags"); __CPROVER_assert(e1 == E_OPTION_INVALID && e2 == E_OPTION_INVALID, "invalid flags -> E_OPTION_INVALID"); }
+    H3Error e2 = E_SUCCESS;
+    if (nv > 0) e2 = H3_EXPORT(maxPolygonToCellsSizeExperimental)(&poly, res, flags, &sz);
+    if (badres) { __CPROVER_assert(e1 == E_RES_DOMAIN && (nv == 0 || e2 == E_RES_DOMAIN), "resolution outside 0-15 -> E_RES_DOMAIN"); }
+    else { VP_WITNESS("bad flags"); __CPROVER_assert(e1 == E_OPTION_INVALID && (nv == 0 || e2 == E_OPTION_INVALID), "invalid flags -> E_OPTION_INVALID"); }
     __CPROVER_assert(out[0] == UINT64_C(0x5a5a5a5a5a5a5a5a) && out[1] == UINT64_C(0x5a5a5a5a5a5a5a5a) && sz == -7, "nothing written on error");
     if (badflags) {
         H3Error e3 = H3_EXPORT(polygonToCells)(&poly, res, flags, out);
